@@ -63,6 +63,32 @@ func init() {
 		ds = append(ds, directed{ir, chain, []string{"request", "otb", "crash@6:tx_confirmed", "tipstored=anchor+600", "spend=fail2:restart", "timeout", "restart"}})
 		// store failure right after the payment, then a second confirmation callback / restart
 		ds = append(ds, directed{osn, chain, []string{"start", "out_agreement", "otb", "store=fail2:tx_confirmed", "tipstored=anchor+600", "restart"}})
+		// paid, at rest in ClaimSwap (in memory; the stored record is still the pay state): every kind of later input,
+		// then a restart
+		laterInputs := []string{"cancel", "coop", "csv", "paid_claim", "paid_fee", "tx_confirmed", "tx_confirmed_err", "otb", "duplicate", "out_agreement", "in_agreement"}
+		if chain == "btc" {
+			laterInputs = []string{"cancel", "tx_confirmed_err"} // the tables do not depend on the chain
+		}
+		for _, in := range laterInputs {
+			ds = append(ds, directed{osn, chain, []string{"start", "out_agreement", "otb", "store=fail3:tx_confirmed", in, "timeout", "restart"}})
+			ds = append(ds, directed{ir, chain, []string{"request", "otb", "store=fail3:tx_confirmed", in, "timeout", "restart"}})
+		}
+		// paid, the store write of the pay state fails: the machine rests in the PAY state (memory), the stored record
+		// is AwaitTxConfirmation: every kind of later input (a second, failing, watcher callback is D4)
+		restInputs := []string{"cancel", "coop", "csv", "tx_confirmed_err", "otb", "timeout"}
+		if chain == "btc" {
+			restInputs = []string{"cancel", "tx_confirmed_err"}
+		}
+		for _, in := range restInputs {
+			ds = append(ds, directed{osn, chain, []string{"start", "out_agreement", "otb", "store=fail2:tx_confirmed", in, "restart"}})
+			ds = append(ds, directed{ir, chain, []string{"request", "otb", "store=fail2:tx_confirmed", in, "restart"}})
+		}
+		// the claim state is durable (crash@7: the ClaimSwap record is written, the claim broadcast result is lost):
+		// restarts keep claiming
+		ds = append(ds, directed{ir, chain, []string{"request", "otb", "crash@7:tx_confirmed", "spend=fail1:restart"}})
+		// ... also when the first broadcast failed and the process died in the retry (no claim txid is stored)
+		ds = append(ds, directed{osn, chain, []string{"start", "out_agreement", "otb", "spend=fail1:crash@7:tx_confirmed", "restart", "timeout"}})
+		ds = append(ds, directed{ir, chain, []string{"request", "otb", "spend=fail1:crash@7:tx_confirmed", "restart", "timeout"}})
 	}
 	registerDirected(ds...)
 }
